@@ -17,6 +17,10 @@
     `C06_assertions_covered` (T-gen) pins the set of bare assertions in the source to the modelled ones: a new unguarded
     assertion, or a comma-ok form turned bare, breaks it. `C06_request_goroutines` (T-gen) records which goroutines would
     not survive a panic (legacy SSE `processRequestAsync`, the stdio line handler: no recover).
+  * `C06_accept_header_total` — the one request header whose value library code parses, Accept
+    (internal/httputil/accept.go, reached by every POST that carries a request), is modelled with its slice index as an
+    operation that can panic: it returns for every header value, and the server with the parser in front never panics;
+    `C06_accept_index_sites` (T-gen) pins the index / slice expressions of accept.go to the modelled one.
   * `C06_answered_streamable`, `C06_answered_stdio` — malformed input is answered by an HTTP error status or a JSON-RPC
     error: full statements on the repaired tree (a wrong path used to get an implicit empty 200, an id-only body an empty
     202, stdio used to drop every such line in silence: D09, D10, D11 — found by this check and repaired). Legacy SSE keeps a
@@ -30,7 +34,8 @@
 
   Liveness, dead-lock freedom and the absence of per-request goroutine leaks are run-time behaviour: they are explored by
   the harness (ping on the connection in use and on a fresh one after every batch, panic text on the ErrorLog, process
-  death in child processes, goroutine census after quiescence), not proved. That is why this property is claimed partial.
+  death in child processes, stalled peers that never read their answers, goroutine census after quiescence — overall and
+  per starting function), not proved. That is why this property is claimed partial.
 -/
 import Mcp.Lemmas.Rpc
 import Mcp.Props.C04
@@ -45,6 +50,32 @@ open Mcp.Props.C04 (C04_refusal_is_noop)
 theorem C06_no_panic (c : SCfg) (reg : Registry) (st : St) (i : HttpIn) (si : SseIn) (b : Body) :
     (serveStreamable c reg st i).2 ≠ .panic ∧ serveSSE reg si ≠ .panic ∧ serveStdio reg b ≠ .panic :=
   ⟨serveStreamable_ne_panic c reg st i, serveSSE_ne_panic reg si, serveStdio_ne_panic reg b⟩
+
+/-- The Accept header parser (internal/httputil/accept.go, reached through responder.go `createResponder` for every POST
+    that carries a request) returns for EVERY header value — any sequence of code points, any number of `,` and `;`, empty
+    elements, parameters with and without `=`: its only slice index, `strings.Split(…)[0]`, is modelled as an index that can
+    panic (`goIndex`), and `strings.Split` never returns an empty slice. With the parser in front of it (`serveWire`), the
+    Streamable server still never panics, and the header decides nothing but the framing of the answer. -/
+theorem C06_accept_header_total (c : SCfg) (reg : Registry) (st : St) (w : HttpWire) (postSSE : Bool) (h : Text) :
+    (∃ as, parseAccept h = .ok as) ∧ (∃ b, chooseSSE postSSE h = .ok b) ∧ (serveWire c reg st w).2 ≠ .panic ∧
+    (∃ acc, serveWire c reg st w = serveStreamable c reg st ⟨w.verb, w.pathOk, w.ref, acc, w.body⟩) :=
+  ⟨parseAccept_ok h, chooseSSE_ok postSSE h, serveWire_ne_panic c reg st w, serveWire_eq c reg st w⟩
+
+/-- …and the index really is one that can fire: on an empty slice it panics (so the model would notice a `Split` replaced
+    by something that can return nothing, or an index other than 0). Parameters without a value — `;q`, `;q=`, `;;` — are
+    dropped with the rest of the parameters. -/
+theorem C06_accept_index_can_fire :
+    (match goIndex ([] : List Text) 0 with | .panic => true | .ok _ => false) = true ∧
+    (match goIndex (splitOn 59 t!"a;q") 2 with | .panic => true | .ok _ => false) = true ∧
+    (match parseAccept t!"text/event-stream;q, ;;, application/json ;q=;x ,," with
+      | .ok as => as == [t!"text/event-stream", t!"application/json "] | .panic => false) = true ∧
+    (match chooseSSE true t!" */*;q" with | .ok b => b | .panic => false) = true ∧
+    (match chooseSSE true t!"text/event-stream ;q=0" with | .ok b => !b | .panic => false) = true := by
+  decide +kernel
+
+/-- T-gen: the slice / array index expressions of internal/httputil/accept.go are exactly the modelled one — a new index
+    (`kv[1]` of a parameter split on `=`, say) breaks this until it is modelled as an index that can panic. -/
+theorem C06_accept_index_sites : Mcp.Gen.rpcIndexSites = modelledIndexSites := by decide
 
 /-- …because every dispatcher outcome is an answer — including `initialize`, whose two bare assertions sit behind
     `checkInitializeParams`. -/
